@@ -68,7 +68,8 @@ def generate(rng, tier):
             p = rng.choice(paths)
             fmt = rng.choice(fmts)
             op = {"op": "write", "fmt": fmt, "path": p, "map": _rmap(rng, hi),
-                  "dx": 10 ** rng.uniform(-3, 2), "wvl": rng.choice([0.6328, 0.6328, rng.uniform(0.3, 11.0), rng.uniform(0.19, 0.63)])}
+                  "dx": 10 ** rng.uniform(-3, 2), "wvl": rng.choice([0.6328, 0.6328, rng.uniform(0.3, 11.0), rng.uniform(0.19, 0.63),
+                                     10 ** rng.uniform(-2.3, 2.5)])}        # EUV ... far infrared
             if fmt == "codev" and rng.random() < 0.4:
                 op["cv"] = {"typ": rng.choice(["SUR", "WFR", "wfr"]), "nnb": rng.random() < 0.5}
             if fmt == "ifg" and rng.random() < 0.05:
@@ -88,6 +89,10 @@ def generate(rng, tier):
                 op["reuse"] = j
                 op["map"], op["dx"], op["wvl"] = ops[j]["map"], ops[j]["dx"], ops[j]["wvl"]
                 op.pop("prep", None)
+                if rng.random() < 0.5:
+                    # ... after working on it a little more
+                    op["restep"] = [rng.choice([["mask"], ["spike_clip"], ["fill"], ["edit"], ["dropout_percentage"]])
+                                    for _ in range(rng.randint(1, 2))]
                 if (op["fmt"] == "codev") != (ops[j]["fmt"] == "codev"):
                     op["fmt"] = ops[j]["fmt"]          # value ranges are chosen per format family
             if cfg["faults"] and rng.random() < 0.35:
@@ -652,6 +657,27 @@ def execute(plan):
             if "reuse" in op and op["reuse"] in objs:
                 holder = objs[op["reuse"]]
                 bump(probes, "same_object_saved_again")
+                obj = holder.get("ifg")
+                if obj is not None and fmt == "ifg" and op.get("restep") and op["map"]["vals"] != "huge":
+                    try:
+                        for step in op["restep"]:
+                            gm = np.random.Generator(np.random.PCG64(op["map"]["seed"] + 11 + i))
+                            if step[0] == "mask":
+                                obj.mask(gm.random(obj.data.shape) < 0.7)
+                            elif step[0] == "spike_clip":
+                                obj.spike_clip(1.0)
+                            elif step[0] == "fill":
+                                obj.fill(0.0)
+                            elif step[0] == "edit":
+                                obj.data[gm.random(obj.data.shape) < 0.3] = np.nan      # the user edits the data directly
+                            elif step[0] == "dropout_percentage":
+                                obj.dropout_percentage
+                    except Exception:
+                        pass
+                    if obj.data.ndim == 2 and obj.data.size > 0:
+                        holder["z"] = obj.data
+                        holder["pristine"] = np.array(obj.data, copy=True)
+                    bump(probes, "object_processed_between_saves")
             else:
                 z0 = build_map(np, op["map"], op["wvl"], fmt)
                 holder = {"z": z0, "pristine": z0.copy(), "ifg": None}
